@@ -46,7 +46,51 @@ def seeded_key(rng: random.Random) -> str:
 
 class HistIO(Hist):
     # =================================================================== C16: circuit codec
+    def deep_chain_codec(self, rng):
+        """A long dependency chain stored users-before-operands (bench text that uses every gate before it defines
+        it): "whatever the internal gate order" has no depth limit in it."""
+        depth = rng.randint(1100, 2000)
+        lines = ['INPUT(x)', 'INPUT(y)', f'OUTPUT(c{depth - 1})']
+        for k in range(depth - 1, -1, -1):
+            prev = f'c{k - 1}' if k else 'x'
+            lines.append(f'c{k} = NOT({prev})' if rng.random() < 0.5 else f'c{k} = {rng.choice(("AND", "OR", "XOR"))}({prev}, y)')
+        cenc = self.m['cenc']
+        self.ev['call'] = f'encode_circuit(<chain of {depth} gates, stored deepest gate first>)'
+        try:
+            real = self.Circuit.from_bench_string('\n'.join(lines))
+            net, _ = observe.snap(real)
+        except Exception as e:  # noqa
+            self.ev['out'] = f'not-built:{exc_name(e)}'
+            return
+        self.res.stats.probes.bump('codec:deep-chain')
+        try:
+            data = cenc.encode_circuit(real)
+        except Exception as e:  # noqa
+            nm = exc_name(e)
+            self.ev['out'] = f'encode-raised:{nm}'
+            self.violate('C16', 'encode', f'{"encodable-circuit-rejected" if is_instance_named(e, DB_ERRORS) else "non-codec-error"}:{nm}:deep-chain',
+                         f'encode_circuit raised {nm} on a chain of {depth} binary/unary gates of the format')
+            return
+        try:
+            dec = cenc.decode_circuit(data)
+            dnet, _ = observe.snap(dec)
+        except Exception as e:  # noqa
+            self.ev['out'] = f'decode-raised:{exc_name(e)}'
+            self.violate('C16', 'decode', f'raised:{exc_name(e)}:deep-chain', f'{exc_name(e)}: {e}')
+            return
+        self.ev['out'] = 'ok'
+        try:
+            a, mask = net.std_assign()
+            da = {x: a[y] for x, y in zip(dnet.inputs, net.inputs)}
+            if [net.lanes(a, mask)[o] for o in net.outputs] != [dnet.lanes(da, mask)[o] for o in dnet.outputs] \
+                    or len(dnet.gates) != len(net.gates):
+                self.violate('C16', 'roundtrip', 'truth-table:deep-chain', 'decoded chain computes something else')
+        except ModelError:
+            pass
+
     def op_codec(self, op, rng):
+        if rng.random() < 0.006:
+            return self.deep_chain_codec(rng)
         s = self.pick(rng, lambda s: s.net.is_acyclic())
         if s is None:
             return
@@ -572,6 +616,14 @@ class HistIO(Hist):
                     self.ev['out'] = 'tolerated:FileExistsError'
                     return None
                 raise
+            if rng.random() < 0.04:
+                # another tool put a long banner of comment lines in front of the saved text (70-90 KiB): the circuit
+                # lines now lie beyond any fixed-size first read
+                key = simfs._resolve(str(path))
+                banner = b'\n'.join(b'# ' + b'generated by some flow; do not edit. ' * 2 for _ in range(rng.randint(950, 1200)))
+                simfs.FS.files[key] = banner + b'\n' + simfs.FS.files[key]
+                self.res.stats.probes.bump('fs:long-comment-banner-in-front-of-the-text')
+                return self.Circuit.from_bench_file(path)
             if rng.random() < 0.06:
                 # another tool appended comments to the saved file, the last of them in Latin-1: the file is no longer
                 # valid UTF-8 from some point (beyond the first read chunk) on.  Refusing it is fine; a circuit that is
